@@ -230,6 +230,21 @@ fn copy_like(v: &Vle) -> bool {
 /// Returns true if the comparison was made.
 #[allow(clippy::too_many_arguments)]
 fn cmp_mix(obs: &mut Obs, tag: &str, what: &str, a: &Vle, b: &Vle, tol: f64, swap: bool, unique: bool) -> bool {
+    // A result that is a trivial solution by the library's OWN measure (partial densities equal
+    // to 1e-5, `PhaseEquilibrium::is_trivial_solution`) is rejected by the solver loops of the
+    // pinned tree; returning one as Ok is never part of a known finding.
+    let lib_trivial = |v: &Vle| {
+        let bitwise = v.vapor().density == v.liquid().density;
+        !bitwise && feos::core::PhaseEquilibrium::is_trivial_solution(v.vapor(), v.liquid())
+    };
+    if lib_trivial(a) || lib_trivial(b) {
+        let (va, vb) = (vle_vals(a), vle_vals(b));
+        obs.fail(format!(
+            "{what}: a bubble/dew point returned as Ok is a trivial solution by the library's own measure (partial densities of the two phases agree to 1e-5): p {:e}, rho {:e}/{:e} vs p {:e}, rho {:e}/{:e}",
+            va.p, va.rho_v, va.rho_l, vb.p, vb.rho_v, vb.rho_l
+        ));
+        return false;
+    }
     if copy_like(a) || copy_like(b) {
         obs.class("a mixture result is a pair of copies");
         let (va, vb) = (vle_vals(a), vle_vals(b));
